@@ -476,6 +476,15 @@ type ordTr struct {
 	goed map[*ast.FuncLit]bool
 }
 
+// Something that may wait for another party (the kinds of locks.go: 0 a channel send, 1 a channel receive, 2 a message
+// sent to a peer, 3 a call to a peer, 4 a Wait) is a mutex of its own, taken and given back on the spot: the relation
+// "asked for while held" then also says which mutexes are held, directly or through calls, while something waits.
+const waitBase = 900
+
+func waitAct(k int) string {
+	return fmt.Sprintf("(.seq (.lock %d) (.unlock %d))", waitBase+k, waitBase+k)
+}
+
 func (t *ordTr) simple(n ast.Node) string {
 	if n == nil {
 		return ".skip"
@@ -492,6 +501,11 @@ func (t *ordTr) simple(n ast.Node) string {
 				unknown = true
 				return true
 			}
+			if sel, ok := v.Fun.(*ast.SelectorExpr); ok {
+				if k, ok := waitingCalls[sel.Sel.Name]; ok && !externalConcrete[t.env.typeOf(sel.X)] {
+					acts = append(acts, waitAct(k))
+				}
+			}
 			fs, dyn := t.env.callees(v)
 			if dyn {
 				acts = append(acts, "(.act 999)")
@@ -502,6 +516,10 @@ func (t *ordTr) simple(n ast.Node) string {
 					alts = append(alts, "(.act @"+f.key+"@)")
 				}
 				acts = append(acts, altOf(alts))
+			}
+		case *ast.UnaryExpr:
+			if v.Op.String() == "<-" {
+				acts = append(acts, waitAct(1))
 			}
 		case *ast.FuncLit:
 			// a literal that is not started with `go`: whoever it is handed to may run it at once (sort.Slice,
@@ -568,7 +586,7 @@ func (t *ordTr) stmt(s ast.Stmt) string {
 	case *ast.ReturnStmt:
 		return seqOf([]string{t.simple(v), ".ret"})
 	case *ast.SendStmt:
-		return seqOf([]string{t.simple(v.Value), t.simple(v.Chan)})
+		return seqOf([]string{t.simple(v.Value), t.simple(v.Chan), waitAct(0)})
 	case *ast.BlockStmt:
 		return t.block(v.List)
 	case *ast.LabeledStmt:
@@ -644,7 +662,11 @@ func (t *ordTr) cases(list []ast.Stmt, mayTakeNone bool) string {
 			if cc.Comm == nil {
 				hasDefault = true
 			}
-			alts = append(alts, seqOf([]string{t.stmt(cc.Comm), t.block(cc.Body)}))
+			comm := t.stmt(cc.Comm)
+			if selectHasDefault(list) && comm != ".unknown" {
+				comm = ".skip" // a select with a default never waits: its sends and receives are attempts
+			}
+			alts = append(alts, seqOf([]string{comm, t.block(cc.Body)}))
 		}
 	}
 	if (mayTakeNone && !hasDefault) || len(alts) == 0 {
